@@ -160,12 +160,12 @@ def run_meta(case, ctx, viol, counters, sigs):
     ident = {"givenName": ["Ann"], "mail": ["ann@example.org"]}
     sp_cert = fed.key(2)[1]
     if fam == "signature":
-        settings = [(0, 1)]
+        settings = [(0, 1), (0, 0)]      # (0, 0): a signature that is present must still verify, encrypted or not
     else:
         settings = [(0, 0)]
     for (wrs, was) in settings:
         sp, idp = _pair(ctx, wrs, was, "one-key")
-        plain = fed.issue(idp, ident, sign_response=False, sign_assertion=bool(was))
+        plain = fed.issue(idp, ident, sign_response=False, sign_assertion=bool(was) or fam == "signature")
         # sanity: the unmutated pair must be accepted in both forms
         r0, e0 = fed.deliver(sp, plain, dict(OUT), conv_info={"entity_id": fed.SP_EID, "remote_addr": "0.0.0.0"})
         r1, e1 = fed.deliver(sp, xk.encrypt_assertions(plain, sp_cert), dict(OUT), conv_info={"entity_id": fed.SP_EID, "remote_addr": "0.0.0.0"})
